@@ -40,7 +40,8 @@ META = {
         'ref_if:else', 'ended_err1', 'ended_err3', 'ended_err30', 'ended_err26', 'ended_err29', 'ended_err6',
         'ended_end', 'budget_exhausted', 'gen_early_exit_goto', 'gen_for_negative_step', 'gen_for_single_counter',
         'gen_for_zero_step', 'directed_cases', 'if_table_programs', 'gen_nested_if_goto_form', 'gen_nested_if_line_form',
-        'gen_for_after_then_or_else', 'gen_while_after_then_or_else', 'gen_for_after_then_or_else_inside_for']},
+        'gen_for_after_then_or_else', 'gen_while_after_then_or_else', 'gen_for_after_then_or_else_inside_for',
+        'skip_table_programs', 'gen_nop_in_if_branch', 'gen_dead_region_for', 'gen_dead_region_while', 'gen_dead_region_if_then']},
     'timeout': {'quick': 600, 'thorough': 7200},
 }
 
@@ -388,8 +389,35 @@ def _if_table(res):
                     res.violation('if-table:nested-one-line-if:wrong-branch',
                                   '%r with A=%d B=%d C=%d printed %r, an ELSE pairs with the nearest unmatched IF: %r'
                                   % (text, env['A'], env['B'], env['C'], out, expected), {'lines': lines, 'forms': forms})
+    # every statement of the skip vocabulary inside each kind of skipped region (expected outputs fixed by hand)
+    m = 0
+    with harness.Box(budget=200) as box:
+        for t in G.SAFE_NOPS + G.DEAD_NOPS:
+            forms = [
+                ('false-if-then', ['10 IF 1=0 THEN %s:PRINT "no" ELSE PRINT "e"' % t, '20 PRINT "f"'], b'e\r\nf\r\n'),
+                ('false-if-no-else', ['10 IF 1=0 THEN %s:PRINT "no"' % t, '20 PRINT "f"'], b'f\r\n'),
+                ('true-if-else-skipped', ['10 IF 1=1 THEN PRINT "t" ELSE %s:PRINT "no"' % t, '20 PRINT "f"'], b't\r\nf\r\n'),
+                ('nested-false-if', ['10 IF 1=0 THEN IF 1=1 THEN %s ELSE %s:PRINT "no" ELSE PRINT "e"' % (t, t), '20 PRINT "f"'], b'e\r\nf\r\n'),
+                ('zero-trip-for', ['10 FOR I=1 TO 0:%s:PRINT "no":NEXT:PRINT "e"' % t], b'e\r\n'),
+                ('zero-trip-for-over-lines', ['10 FOR I=1 TO 0', '20 %s' % t, '30 PRINT "no":%s' % t, '40 NEXT I', '50 PRINT "e"'], b'e\r\n'),
+                ('false-while', ['10 WHILE 0:%s:PRINT "no":WEND:PRINT "e"' % t], b'e\r\n'),
+                ('data-scan', ['10 GOTO 30', '20 %s:DATA 5' % t, '30 READ A:PRINT A'], b' 5 \r\n'),
+                ('gosub-return', ['10 GOSUB 40:PRINT "b":END', '20 %s' % t, '40 RETURN'], b'b\r\n'),
+            ]
+            for name, lines, expected in forms:
+                try:
+                    out = box.run([l.encode('ascii') for l in lines], budget=200)
+                except harness.Internal as e:
+                    res.violation(e.key, str(e), {'lines': lines})
+                    continue
+                m += 1
+                if out != expected:
+                    res.violation('skip-table:%s:statement-not-stepped-over' % name,
+                                  'program %r printed %r, expected %r' % (lines, out, expected), {'lines': lines})
+    n += m
+    res.count('skip_table_programs', m)
     res.bulk(n, n)
-    res.count('if_table_programs', n)
+    res.count('if_table_programs', n - m)
     res.sample({'kind': 'if_table', 'line': _if_text(shapes[40], {'t': 0, 'j': 0})[0], 'programs': n})
 
 
